@@ -252,11 +252,22 @@ class ValueGen(object):
                 if math.isnan(v) or math.isinf(v):
                     v = 1.0
             return v
-        if x < 0.55:
+        if x < 0.45:
             v = rnd.choice(REAL_POOL)
             if not self.special_reals and (math.isinf(v)):
                 v = 1.0
             return v
+        if x < 0.55:
+            # odd mantissa times a power of two at the exponent-width boundaries of X.690 8.5.7 (one octet: -128..127)
+            m = rnd.choice([1, 1, 3, 5, 255, 2 ** 52 + 1, rnd.getrandbits(20) | 1])
+            e = rnd.choice([-131, -130, -129, -128, -127, -126, 125, 126, 127, 128, 129, 130, -1022, 900]) - rnd.choice([0, 0, m.bit_length() - 1])
+            try:
+                v = math.ldexp(float(m), e)
+            except OverflowError:
+                v = float(m)
+            if math.isinf(v) or v == 0.0:
+                v = float(m)
+            return v if rnd.random() < 0.7 else -v
         if x < 0.7:
             return float(rnd.randint(-10 ** 6, 10 ** 6))
         if x < 0.8:
